@@ -3,16 +3,24 @@ import Glom.Model.C19Env
 /-
   C19 — The CLI prints what the library computes; default-format specs never execute.
 
-  **PARTIAL PROOF.**  The theorems are about the decision logic of glom/cli.py
-  (which text is the spec, which the target, which parser / loader receives it,
-  how the result is printed, which exit status) for ALL flag combinations,
-  file systems, standard inputs and ALL behaviours of the external functions,
-  which are parameters of the model (`Ext`): the JSON / YAML / TOML parsers,
-  `ast.literal_eval`, `repr`, `glom.glom` itself (C01–C18), `json.dumps`,
-  `is_scalar`, `str()`; `face`'s argument parsing is outside the model.  Those
-  externals are exercised by the correspondence only.  The full statement
-  ("for any JSON, Python-literal, YAML or TOML *text* …") would need verified
-  models of those parsers.
+  **PARTIAL PROOF.**  The theorems are about the decision logic of glom/cli.py as a function
+  of the RAW argument list, the files and standard input: how face's parser reads the command
+  line for the option table of glom's command (extracted from the Command object), which text
+  is the spec, which the target, which parser / loader receives it, how the result is printed,
+  which exit status — for ALL argument lists, file systems, standard inputs and ALL behaviours
+  of the external functions, which are parameters of the model (`Ext`): the JSON / YAML / TOML
+  parsers, `ast.literal_eval`, `repr`, `int()`, `glom.glom` itself (C01–C18) and what it prints,
+  `Inspect(…)`, `json.dumps`, `is_scalar`, `str()`, `shlex` on flagfile lines, the help text.
+  Those externals are exercised by the correspondence only.  The full statement ("for any JSON,
+  Python-literal, YAML or TOML *text* …") would need verified models of those parsers.
+
+  Groups: facts obligations (tables, handlers, text flow, option table, call graph) · every
+  delivery prints the same thing (`c19_output` … `c19_model_checks`) · channel equivalence
+  (`c19_delivery_independent`, `c19_channels_check`) · the whole command (`c19_main_total`,
+  `c19_exit_status`, `c19_status_zero`, `c19_parse_render`, `c19_parse_posargs`,
+  `c19_model_checks_argv`) · never executes for every format spelling / file name / command line
+  (`c19_exec_only_python_full`, `c19_argv_exec_only_python_full`, `c19_argv_never_executes`,
+  `c19_spec_file_name_irrelevant`) · non-vacuity examples and counter-examples.
 
   `c19_never_executes` is decision logic over the call / reference graph
   extracted from the AST of cli.py on every run.
@@ -34,7 +42,12 @@ variable {T S R : Type}
     `Exception` or a class above every class the PROBE saw that format's loader raise (`catchWF`);
     every read of text in cli.py (spec file, target file, standard input — `_read_stdin`) sits
     under a handler naming OSError and UnicodeError (or `Exception`) that raises a UsageError; the
-    probe is not vacuous (≥ 2 classes per loader, all `Exception` subclasses). -/
+    probe is not vacuous (≥ 2 classes per loader, all `Exception` subclasses); `--debug` /
+    `--inspect` wrap the spec in `Inspect(…)` with the debugger hooks tied to an open stdin;
+    WHAT IS READ IS WHAT IS LOADED (`textFlowWF`: nothing is done to a text between its read and
+    its loader / parser); the spec file's name and the spec format's spelling are used for
+    nothing but opening / comparing (`specNameWF`); the option table of the Command object is the
+    documented one (`tableWF`). -/
 theorem c19_facts_wf :
     WF genFacts = true ∧
     shapeWF Generated.cliShape Generated.cliMainShape Generated.cliMwSteps Generated.cliEmptyTargetFirst
